@@ -234,6 +234,20 @@ pub fn run(tier: &str) -> Report {
                 bodies.push((b.clone(), fam));
             }
         }
+        if host.has_difficulty {
+            // runs of 2-3 consecutive same-opcode instructions under difficulty labels (contiguous masks, masks with
+            // holes, overlapping and non-adjacent masks, aux-style high bits): the decompiler's switch recognition
+            let labels = ["0", "1", "01", "02", "13", "3", "23", "012", "0123", "4", "*"];
+            let n = labels.len();
+            for a in 0..n { for b in 0..n {
+                for same in [false, true] {
+                    bodies.push((format!("{{ {{\"{}\"}}: mS({}); {{\"{}\"}}: mS({}); {{\"*\"}}: m0(); }}", labels[a], 10, labels[b], if same { 10 } else { 20 }), "diffrun"));
+                }
+                if thorough || (a + b) % 3 == 0 { for c in 0..n {
+                    bodies.push((format!("{{ {{\"{}\"}}: mS(10); {{\"{}\"}}: mS(20); {{\"{}\"}}: mS(30); }}", labels[a], labels[b], labels[c]), "diffrun"));
+                }}
+            }}
+        }
         let mut seen_plain = BTreeSet::new();
         let (pn, pb) = if thorough { (4, 4) } else { (3, 3) };
         for n in 1..=pn { explore_dfs(pb, 100_000, &|ch| gen_plain(ch, &host, n), &mut |_, b| { if seen_plain.insert(b.clone()) { bodies.push((b, "plain")); } }); }
